@@ -22,7 +22,8 @@ Inductive obs :=
 
 Inductive action :=
 | AStart (i : nat) | AFeed (i : nat) | AEof (i : nat) | ACancel
-| AHold | ARelease.             (* the driver takes / releases s.mutex *)
+| AHold | ARelease              (* the driver takes / releases s.mutex *)
+| APm (i : nat) (answer : bool). (* the driver's path manager holds back / answers handler i's request *)
 
 Record tobs := TO {
   o_res : option err;           (* None: did not return (panicked, or still blocked at the end) *)
@@ -181,7 +182,7 @@ Fixpoint zl_eqb (a b : list Z) : bool :=
 Definition thread_key1 (t : thread) : list Z :=
   [nz (List.length (t_ops t)); match t_alt t with Some _ => 1 | None => 0 end; res_code (t_res t); bz (t_holds t)].
 Definition thread_key2 (t : thread) : list Z :=
-  [bz (t_on t); bz (t_fed t); bz (t_eof t); cat_code (t_cat t); nz (List.length (t_wrote t));
+  [bz (t_on t); bz (t_fed t); bz (t_eof t); bz (t_pmgo t); cat_code (t_cat t); nz (List.length (t_wrote t));
    match t_pm t with Some _ => 1 | None => 0 end]
   ++ lz (t_name t) ++ lz (t_query t)
   ++ match t_snap t with Some (s, n, q) => (1 + st_code s) :: lz n ++ lz q | None => [0] end.
@@ -251,9 +252,10 @@ Definition map_thread (i : nat) (f : thread -> thread) (x : conf) : conf :=
   match nth_error (snd x) i with Some t => (fst x, upd i (f t) (snd x)) | None => x end.
 Definition act (a : action) (x : conf) : conf :=
   match a with
-  | AStart i => map_thread i (fun t => t_env t true (t_fed t) (t_eof t)) x
-  | AFeed i => map_thread i (fun t => t_env t (t_on t) true (t_eof t)) x
-  | AEof i => map_thread i (fun t => t_env t (t_on t) (t_fed t) true) x
+  | AStart i => map_thread i (fun t => t_env t true (t_fed t) (t_eof t) (t_pmgo t)) x
+  | AFeed i => map_thread i (fun t => t_env t (t_on t) true (t_eof t) (t_pmgo t)) x
+  | AEof i => map_thread i (fun t => t_env t (t_on t) (t_fed t) true (t_pmgo t)) x
+  | APm i b => map_thread i (fun t => t_env t (t_on t) (t_fed t) (t_eof t) b) x
   | ACancel => (set_ctx (fst x), snd x)
   | AHold => (match g_lock (fst x) with LFree => set_lock (fst x) LEnv | _ => fst x end, snd x)
   | ARelease => (match g_lock (fst x) with LEnv => set_lock (fst x) LFree | _ => fst x end, snd x)
